@@ -809,9 +809,15 @@ class LLMGenerationActionsV2dotx(LLMGenerationActions):
         log.info("Generated value for $%s: %s", var_name, value)
 
         try:
-            return literal_eval(value)
+            result = literal_eval(value)
         except Exception:
             raise Exception(f"Invalid LLM response: `{value}`")
+
+        # Only plain values can be stored in the flow context (the state must be serializable).
+        if not _is_plain_value(result):
+            raise Exception(f"Invalid LLM response: `{value}`")
+
+        return result
 
     @action(name="GenerateFlowAction", is_system_action=True, execute_async=True)
     async def generate_flow(
@@ -954,3 +960,16 @@ class LLMGenerationActionsV2dotx(LLMGenerationActions):
             console.print("")
 
         return {"name": flow_name, "parameters": [], "body": body}
+
+
+def _is_plain_value(value: Any) -> bool:
+    """Check that a value is made only of str, numbers, bool, None, lists, tuples and dicts."""
+    if value is None or isinstance(value, (str, int, float, bool)):
+        return True
+    if isinstance(value, (list, tuple)):
+        return all(_is_plain_value(v) for v in value)
+    if isinstance(value, dict):
+        return all(
+            isinstance(k, str) and _is_plain_value(v) for k, v in value.items()
+        )
+    return False
